@@ -77,19 +77,32 @@ def tracerSamplerArg (s : String) : Option Sampler.Sampler :=
   | some x => some x
   | none => samplerArg s
 
-def opArg (nthreads : Nat) : List String → Option Op
+/-- an operation of a case: one of the model's `Op`s, or `startx` = `StartSpan` on the disabled tracer -/
+inductive C05Op where
+  | op (o : Op)
+  | startx (t : Nat) (p : ParentSpec)
+
+def c05step (cfg : Config) (w : World) : C05Op → Option (World × Obs)
+  | .op o => step cfg w o
+  | .startx t p => startDisabled w t p
+
+def opArg (nthreads : Nat) : List String → Option C05Op
   | ["start", t, p, name] => do
     let t ← t.toNat?
     let p ← parentSpecArg p
-    if t < nthreads then pure (.start t p ⟨nameBytes name, 0, [], []⟩) else none
+    if t < nthreads then pure (.op (.start t p ⟨nameBytes name, 0, [], []⟩)) else none
+  | ["startx", t, p, _name] => do
+    let t ← t.toNat?
+    let p ← parentSpecArg p
+    if t < nthreads then pure (.startx t p) else none
   | ["scope", t, k] => do
     let t ← t.toNat?
     let k ← k.toNat?
-    if t < nthreads then pure (.withActive t k) else none
+    if t < nthreads then pure (.op (.withActive t k)) else none
   | ["endscope", t] => do
     let t ← t.toNat?
-    if t < nthreads then pure (.endScope t) else none
-  | ["end", k] => k.toNat?.map .endSpan
+    if t < nthreads then pure (.op (.endScope t)) else none
+  | ["end", k] => k.toNat?.map fun k => .op (.endSpan k)
   | _ => none
 
 def showObs : Obs → String
@@ -115,10 +128,10 @@ def handleTr (toks : List String) : String :=
       | none => "bad-op"
       | some ops =>
         -- run, showing each observation against the world it was made in
-        let rec go (w : World) : List Op → List String → Option (World × List String)
+        let rec go (w : World) : List C05Op → List String → Option (World × List String)
           | [], acc => some (w, acc.reverse)
           | op :: rest, acc =>
-            match step cfg w op with
+            match c05step cfg w op with
             | none => none
             | some (w', o) =>
               let txt := match o with
